@@ -69,6 +69,53 @@ theorem setAllS_append (T : Tables) (props : List (Key × Schema)) (others : Lis
     | ok c => simp only []; exact ih b c
     | error e => simp
 
+/-- if some item of the loop is rejected in every state, the loop raises -/
+theorem setAllS_error_of_mem (T : Tables) (props : List (Key × Schema)) (others : List Str) (k : Key) (v : Tree)
+    (hbad : ∀ c, ∃ e, setAttr T props others c k v = .error e) :
+    ∀ (items cur : Dict), (k, v) ∈ items → ∃ e, (setAllS T props others cur items).2 = .error e := by
+  intro items
+  induction items with
+  | nil => intro cur h; cases h
+  | cons hd t ih =>
+    obtain ⟨k', v'⟩ := hd
+    intro cur h
+    rw [setAllS_cons]
+    cases hs : setAttr T props others cur k' v' with
+    | error e => exact ⟨e, rfl⟩
+    | ok c' =>
+      rcases List.mem_cons.mp h with heq | hmem
+      · injection heq with h1 h2
+        subst h1; subst h2
+        obtain ⟨e, he⟩ := hbad cur
+        rw [he] at hs; cases hs
+      · exact ih c' hmem
+
+/-- `update` either succeeds or raises with the object as it was -/
+theorem updateObj_cases (T : Tables) (props : List (Key × Schema)) (others : List Str) (cur : Dict) (arg : Option Tree)
+    (kwargs : Dict) (mt rno : Bool) :
+    (∃ e, updateObj T props others cur arg kwargs mt rno = (cur, .error e)) ∨
+    (∃ c u, updateObj T props others cur arg kwargs mt rno = (c, .ok u)) := by
+  unfold updateObj
+  simp only []
+  split
+  · exact .inl ⟨_, rfl⟩
+  · split
+    · exact .inl ⟨_, rfl⟩
+    · split
+      · exact .inl ⟨_, rfl⟩
+      · exact .inl ⟨_, rfl⟩
+      · split
+        · exact .inr ⟨_, _, rfl⟩
+        · exact .inl ⟨_, rfl⟩
+
+/-- **`update` is all or nothing** (repo fix cea5f08): when it raises, the object is as it was -/
+theorem updateObj_error_unchanged (T : Tables) (props : List (Key × Schema)) (others : List Str) (cur : Dict) (arg : Option Tree)
+    (kwargs : Dict) (mt rno : Bool) (e : Kind) (h : (updateObj T props others cur arg kwargs mt rno).2 = .error e) :
+    (updateObj T props others cur arg kwargs mt rno).1 = cur := by
+  rcases updateObj_cases T props others cur arg kwargs mt rno with ⟨e', he⟩ | ⟨c, u, hc⟩
+  · rw [he]
+  · rw [hc] at h; cases h
+
 /-! ### the world -/
 
 theorem setTree_getElem?_ne (w : World) (i j : Nat) (t : Dict) (h : j ≠ i) : (setTree w i t)[j]? = w[j]? := by
@@ -260,7 +307,13 @@ theorem updateObj_shape0 (cur : Dict) (h : Shape0 cur) (arg : Option Tree) (kwar
     · split
       · exact h
       · exact h
-      · exact setAllS_shape0 T ps os sh ct vk others _ cur h
+      · rename_i nd _
+        have := setAllS_shape0 T ps os sh ct vk others nd cur h
+        split
+        · rename_i c u heq
+          rw [heq] at this
+          exact this
+        · exact h
 
 theorem atPath_shape0 (f : List (Key × Schema) → List Str → Dict → Dict × Except Kind Unit) (path : List Key)
     (hf : path = [] → ∀ cur, Shape0 cur → Shape0 (f [(dk, .obj ps os sh ct vk)] others cur).1) (cur : Dict) (h : Shape0 cur) :
